@@ -328,4 +328,13 @@ def tileColours (inp : TileIn) : Int × Int :=
   ((match inp.pix with | some c => color565 (color6 c) | none => 65535),
    (match inp.bg with | some c => color565 (color6 c) | none => 0))
 
+/-! ## the argument after the call (lines 308-319: absent sub-messages of `*textStruct` are replaced by empty ones) -/
+
+def Styling.fill (st : Styling) : Styling :=
+  { st with textFont := some (st.textFont.getD {}), titleFont := some (st.titleFont.getD {}) }
+
+/-- `*textStruct` after `WriteDisplayTileNew` returned -/
+def fillNil (inp : TileIn) : TileIn :=
+  { inp with styling := some ((inp.styling.getD {}).fill), scale := some (inp.scale.getD {}) }
+
 end RawPanelVerif.Tile
